@@ -643,6 +643,7 @@ def adjust(pid, rng, cfg):
     """property-specific nudges of a random option set"""
     if pid == "C15" and cfg.adapters and not cfg.discard_trimmed:
         cfg.demux = True
+        cfg.demux_twice = rng.random() < 0.3
     if pid in ("C17", "C20"):
         cfg.info_file = True
     if pid == "C09":
